@@ -16,6 +16,14 @@ where
     v.sort_by(|lhs, rhs| lhs.0.cmp(&rhs.0));
 }
 
+/// Parses a decimal integer. The whole input must be the number: `12abc` is not an integer.
+pub fn parse_integer<I: atoi::FromRadix10SignedChecked>(text: &[u8]) -> Option<I> {
+    match I::from_radix_10_signed_checked(text) {
+        (Some(n), used) if used > 0 && used == text.len() => Some(n),
+        _ => None,
+    }
+}
+
 pub fn is_base64_encoded(bytes: &[u8]) -> bool {
     base64_simd::STANDARD.check(bytes).is_ok()
 }
